@@ -55,6 +55,11 @@ CLAIMED = {
         "level": "Decides that each documented name is bound to the std/inetnum operation of that name (93 registrations) and that each string view counts in its own unit; the values those operations return are trusted, not decided.",
         "note": "Partial: clauses N1-N3.",
     },
+    "C10": {
+        "technique": "guard-before-trap check on every trapping cranelift builder call in the code generator; panic-site inventory over the call-graph closure of all registered built-in bodies, discharged by a reviewed (function, kind, producer) table",
+        "level": "Decides two necessary conditions (K1 trapping instructions guarded, K2 no unreviewed panic across the FFI boundary in built-ins); absence of traps for all operand values in generated code in general is not decided. Five genuine defects are listed as known findings.",
+        "note": "Partial: clauses K1, K2.",
+    },
 }
 _PENDING = "check under construction in this session; not yet claimed"
 NOT_APPLICABLE = {p: _PENDING for p in
